@@ -156,9 +156,9 @@ fn normalise(b: &Built, res: &RunResult, post: &[Event]) -> (Vec<String>, Vec<St
     let mut tail = Vec::new();
     match &res.outcome {
         Outcome::Done => {}
-        Outcome::Unstuck(_) | Outcome::Deadlock => tail.push(Obj::new("deadlock").int("t", 0).int("d", 0).done()),
+        Outcome::Unstuck(_) | Outcome::Deadlock => tail.push(Obj::new("deadlock").int("t", 0).int("d", 0).int("hdepth", res.stuck.iter().map(|s| s.1 as i64).max().unwrap_or(0)).done()),
         Outcome::Livelock | Outcome::StepLimit => {
-            tail.push(Obj::new("livelock").int("t", 0).int("d", 0).done())
+            tail.push(Obj::new("livelock").int("t", 0).int("d", 0).int("hdepth", res.stuck.iter().map(|s| s.1 as i64).max().unwrap_or(0)).done())
         }
         Outcome::Aborted(r) => {
             tail.push(Obj::new("aborted").int("t", 0).int("d", 0).str("why", r).done())
